@@ -128,12 +128,42 @@ func init() {
 		}
 		return float64(argInt(args[0]) * 10), nil
 	})
+	genql.RegisterFunction("ofn", func(q *genql.Query, cur genql.Map, fo *genql.FunctionOptions, args []any) (any, error) {
+		if r := cur14.Load(); r != nil {
+			r.mu.Lock()
+			r.onceInv++
+			r.mu.Unlock()
+		}
+		return nil, nil // a ONCE function whose result is NULL
+	})
 	genql.RegisterImmediateFunction("imm", func(q *genql.Query, cur genql.Map, fo *genql.FunctionOptions, args []any) (any, error) {
 		return float64(argInt(args[0]) * 10), nil
 	})
 }
 
 var runCounter int
+
+// placement wraps the select list into a nested query: "" (top level), "derived", "cte"
+func placed(inner, placement string) string {
+	switch placement {
+	case "derived":
+		return "SELECT * FROM (" + inner + ") x"
+	case "cte":
+		return "WITH c AS (" + inner + ") SELECT * FROM c"
+	}
+	return inner
+}
+
+func placedWant(rows []any, placement string) []any {
+	if placement != "derived" {
+		return rows
+	}
+	out := []any{}
+	for _, r := range rows {
+		out = append(out, map[string]any{"x": r})
+	}
+	return out
+}
 
 func asyncSQL(items []string, run int) string {
 	parts := []string{"mark(a) AS m"}
@@ -152,6 +182,8 @@ func asyncSQL(items []string, run int) string {
 			parts = append(parts, fmt.Sprintf("SPIN.af(a, %d, %d) AS c%d", n, run, n))
 		case "once":
 			parts = append(parts, fmt.Sprintf("ONCE.of(a) AS c%d", n))
+		case "oncenull":
+			parts = append(parts, fmt.Sprintf("ONCE.ofn(a) AS c%d", n))
 		}
 	}
 	return "SELECT " + strings.Join(parts, ", ") + " FROM t"
@@ -177,6 +209,8 @@ func asyncWant(items []string, nrows int) []any {
 				row[key] = float64(r * 10)
 			case "once":
 				row[key] = float64(10)
+			case "oncenull":
+				row[key] = nil
 			}
 		}
 		rows = append(rows, row)
@@ -201,7 +235,7 @@ type execResult struct {
 	pan  any
 }
 
-func checkAsyncOutcome(r *asyncRun, items []string, nrows int, res execResult, sql string, sig []string) *Verdict {
+func checkAsyncOutcome(r *asyncRun, items []string, nrows int, res execResult, sql string, sig []string, placement string) *Verdict {
 	if res.pan != nil {
 		v := fail("panic", sql, sig, "panic escaped the API: %v", res.pan)
 		return &v
@@ -232,12 +266,12 @@ func checkAsyncOutcome(r *asyncRun, items []string, nrows int, res execResult, s
 				}
 			}
 		}
-		if k == "once" && r.onceInv != 1 && nrows > 0 {
+		if (k == "once" || k == "oncenull") && r.onceInv != 1 && nrows > 0 {
 			v := fail("invocations", sql, sig, "the ONCE function was invoked %d times in one query", r.onceInv)
 			return &v
 		}
 	}
-	want := asyncWant(items, nrows)
+	want := placedWant(asyncWant(items, nrows), placement)
 	if !Equal(any(res.rows), any(want)) {
 		v := fail("result", sql, sig, "rows when Exec returned: want %s got %s", Canon(any(want)), Canon(any(res.rows)))
 		return &v
@@ -247,11 +281,27 @@ func checkAsyncOutcome(r *asyncRun, items []string, nrows int, res execResult, s
 
 // checkC14: force one exported schedule of Async.tla onto the real engine.
 func checkC14(c Node) Verdict {
+	placements := []string{""}
+	if n, _ := c["nested"].(bool); n {
+		placements = []string{"derived", "cte"}
+	}
+	var v Verdict
+	for _, p := range placements {
+		v = checkC14Placed(c, p)
+		if !v.OK {
+			return v
+		}
+	}
+	v.Execs = len(placements)
+	return v
+}
+
+func checkC14Placed(c Node, placement string) Verdict {
 	items := strs(c["items"])
 	nrows := int(num(c["nrows"]))
 	runCounter++
-	sql := asyncSQL(items, runCounter)
-	sig := []string{"schedule"}
+	sql := placed(asyncSQL(items, runCounter), placement)
+	sig := []string{"schedule", "placement:" + placement}
 	for _, k := range items {
 		sig = append(sig, "kind:"+k)
 	}
@@ -362,7 +412,7 @@ func checkC14(c Node) Verdict {
 		case "return":
 			select {
 			case res := <-done:
-				if bad := checkAsyncOutcome(r, items, nrows, res, sql, sig); bad != nil {
+				if bad := checkAsyncOutcome(r, items, nrows, res, sql, sig, placement); bad != nil {
 					return *bad
 				}
 			case <-time.After(stepTimeout):
@@ -439,7 +489,7 @@ func init() {
 			time.Sleep(500 * time.Microsecond)
 		}
 		info.Samples = []string{sql}
-		info.Cfg = fmt.Sprintf("SPECIFICATION TraceSpec\nCONSTANTS\n  NRows = %d\n  Items <- %s\n  Dev_AddInGoroutine = FALSE\nPOSTCONDITION Summary\nCHECK_DEADLOCK FALSE\n", nrows, map[int]string{0: "Items0", 1: "Items1", 2: "Items2", 3: "Items3", 4: "Items4"}[int(seed)%len(configs)])
+		info.Cfg = fmt.Sprintf("SPECIFICATION TraceSpec\nCONSTANTS\n  NRows = %d\n  Items <- %s\n  Dev_AddInGoroutine = FALSE\n  Nested = FALSE\n  Dev_NoChain = FALSE\nPOSTCONDITION Summary\nCHECK_DEADLOCK FALSE\n", nrows, map[int]string{0: "Items0", 1: "Items1", 2: "Items2", 3: "Items3", 4: "Items4"}[int(seed)%len(configs)])
 		return info
 	}
 }
